@@ -168,7 +168,7 @@ def run(ctx):
             ctx.ob("R18.3", "pstrtod|scales-with-pow|%s" % (par.get("op", "call") if par else "call"), False, ps.loc(c),
                    "`%s`: the result is scaled by pow(10, e), which is not correctly rounded (1e23 parses to 1.0000000000000001e23, 5e-324 to 0)" % (show(par) if par else show(c)))
     ctx.ob("R18.3", "pstrtod|lint-ran", True, ps.loc(), "%d inexact-accumulation sites reported" % n_l)
-
+    exponent_sign(ctx)
 
 def _ev(db, n, env):
     """Evaluate a small integer expression tree; env maps field/param short names to ints."""
@@ -304,3 +304,31 @@ def _fold(db, n):
         a = _fold(db, n["e"])
         return -a if a is not None else None
     return None
+
+
+
+def exponent_sign(ctx):
+    """R18.5: [lex.fcon] exponent-part = e sign(opt) digit-sequence with sign one of + -.  If the scanner does not take
+    the sign into the literal, `1E+3` is lexed as `1E` `+` `3` and evaluates to 4 without any diagnostic."""
+    from . import gates as G
+    db = ctx.db
+    ctx.rule("R18.5", "in get_number the test for an exponent sign accepts both '+' and '-' (every condition that compares the look-ahead with one of them compares it with the other in the same disjunction)")
+    fn = db.fn("CPPPreprocessor::get_number")
+    n = 0
+    for node in fn.walk():
+        if node.get("k") not in ("if", "while"):
+            continue
+        consts = set()
+        for a in walk(node["c"]):
+            c = G.cmp_atom(a) if a.get("k") in ("bin", "call") else None
+            if c and c[0] == "==":
+                for u, v in ((c[1], c[2]), (c[2], c[1])):
+                    if local_ref(u) is not None and const_int(v) in (43, 45):
+                        consts.add(const_int(v))
+        if not consts:
+            continue
+        n += 1
+        ctx.ob("R18.5", "get_number|exponent-sign", consts == {43, 45}, fn.loc(node),
+               "the sign test `%s` accepts %s" % (show(node["c"])[:60], " and ".join("'%s'" % chr(k) for k in sorted(consts))))
+    ctx.floor("R18.5", "exponent-sign tests", n, 1)
+
